@@ -1,5 +1,7 @@
 from __future__ import annotations
 
+import copy
+
 from itertools import product
 from numbers import Integral
 
@@ -22,7 +24,10 @@ from ._random_state import RandomState
 def _choice_rng(state_data, a, size, replace, p, axis, shuffle):
     from ._expr import _rng_from_bitgen
 
-    state = _rng_from_bitgen(state_data)
+    # Draw from a copy: the bit generator is a literal of the graph, and
+    # advancing it would make every further execution of the same graph
+    # (a second compute, a retried task) return different numbers
+    state = _rng_from_bitgen(copy.deepcopy(state_data))
     return state.choice(a, size=size, replace=replace, p=p, axis=axis, shuffle=shuffle)
 
 
@@ -133,7 +138,9 @@ class RandomChoice(IO):
         # array (mirrors _expr.Random._info). Derive a 128-bit entropy per block
         # from the root RNG via one SeedSequence — deterministic from the root,
         # so recompute is stable — and let the worker rebuild the state.
-        root_entropy = int.from_bytes(self._state.bytes(16), "little")
+        # Read the entropy from a copy: ``_state`` is an operand, and a node
+        # re-created by a rewrite must draw the same numbers as the original
+        root_entropy = int.from_bytes(copy.deepcopy(self._state).bytes(16), "little")
         words = (
             np.random.SeedSequence(root_entropy)
             .generate_state(len(self.sizes) * 4, dtype=np.uint32)
@@ -176,7 +183,9 @@ class RandomChoiceGenerator(RandomChoice):
 
     @cached_property
     def state_data(self):
-        return _spawn_bitgens(self._state, len(self.sizes))
+        # Spawn from a copy: ``_state`` is an operand, and a node re-created by
+        # a rewrite must draw the same numbers as the original
+        return _spawn_bitgens(copy.deepcopy(self._state), len(self.sizes))
 
     def _layer(self) -> dict:
         keys = product([self._name], *[range(len(bd)) for bd in self.chunks])
